@@ -114,9 +114,9 @@ func (ex *exec) pickNext(self *gor) *gor {
 	if len(cands) == 0 {
 		return nil
 	}
-	if ex.cfg.Interleave && len(cands) > 1 {
-		return cands[ex.choose(len(cands), "sched")]
-	}
+	// When the running goroutine blocks or ends, the next one is taken in
+	// creation order; schedule exploration happens at the (budgeted)
+	// preemption points only.
 	return cands[0]
 }
 
